@@ -19,6 +19,12 @@ def unify_none(j):
 
 def canon_for_model(j, optional_absent_is_none=False):
     j = copy.deepcopy(j)
+    # the two string spellings of "no value" ("None" from the ReST parser, NoneStr from the others) are one
+    # result; Python None stays distinct (the argparse emitter treats it differently on input)
+    for p in [q for _, q in j["params"]] + ([j["returns"]] if j.get("returns") else []):
+        d = p.get("default")
+        if d is not None and d.get("t") == "str" and d.get("v") == "None":
+            p["default"] = {"t": "str", "v": "```(None)```"}
     if optional_absent_is_none:
         # argparse: `Optional[...]` <-> not required; an absent default and NoneStr are the same reading
         for _, p in j["params"]:
